@@ -402,3 +402,61 @@ def merge_alignment(ck, w, rid_a, rid_b):
                 ck.fail(o, mn.name, m, m)
         else:
             ck.ok(o, instances=5)
+
+
+HIDING = re.compile(r"Iterator::(skip|take|step_by|take_while|skip_while|nth|last|map_while|rev)$|Vec::<T, A>::(truncate|pop|remove|swap_remove|drain|retain|dedup\w*)$|<impl \[T\]>::(first|last|split_at|split_first|split_last)$")
+
+
+def hunk_listing_complete(ck, w, rid):
+    """The listing of hunk files every reader relies on (stitcher, validate, gc reference scan) hides no
+    file: IndexRead::hunks_available selects directory entries by kind and by numeric name only - never by
+    length or any other attribute - and uses no truncating adapter. A hidden (e.g. zero-length) hunk is a
+    hunk nobody tries to read, hence nobody reports."""
+    lib = w.lib
+    o = ck.ob(rid, "IndexRead::hunks_available returns every file with a numeric name: entries are selected by kind and name only")
+    fam = lib.family("index::IndexRead::hunks_available")
+    if not fam:
+        ck.fail(o, "index::IndexRead::hunks_available", "anchor-missing", "hunks_available not found")
+        return
+    problems = []
+    n_sel = 0
+    for b in fam:
+        for e in b.events:
+            if e.bb in b.live and HIDING.search(e.name) and not e.macro:
+                problems.append(("a truncating adapter hides hunks", "%s in %s" % (e.name.split("::")[-1], b.name), e.site()))
+            if e.bb in b.live and re.search(r"Iterator::(filter|filter_map)$", e.name):
+                n_sel += 1
+        for bb in b.live:
+            blk = b.blocks[bb]
+            places = []
+            for st in blk["stmts"]:
+                if st["sk"] != "assign":
+                    continue
+                rv = st["rv"]
+                for op in rv.get("ops", []):
+                    if op.get("k") in ("copy", "move"):
+                        places.append((op["pl"], st.get("line")))
+                if "pl" in rv:
+                    places.append((rv["pl"], st.get("line")))
+            t = blk["term"]
+            for op in t.get("args", []) or []:
+                if op.get("k") in ("copy", "move"):
+                    places.append((op["pl"], t.get("line")))
+            for pl, line in places:
+                for pe in pl["p"]:
+                    if pe.startswith("f:") and pe.split(":", 2)[2] == "len" and "DirEntry" in (b.locals[pl["l"]] or ""):
+                        problems.append(("hunk files are selected by their length", "DirEntry.len read in %s" % b.name, "%s:%s" % (b.file, line)))
+        for e in b.events:
+            if e.bb in b.live and re.search(r"transport::DirEntry::(len|is_empty)$|transport::Transport::metadata$", e.name):
+                problems.append(("hunk files are selected by their length", "%s called in %s" % (e.name, b.name), e.site()))
+    if n_sel < 2:
+        problems.append(("selection idiom not recognised", "expected the kind / numeric-name selections, found %d filter(s)" % n_sel, None))
+    if problems:
+        seen = set()
+        for k, m, site in problems:
+            if k in seen:
+                continue
+            seen.add(k)
+            ck.fail(o, "index::IndexRead::hunks_available", k, m, site)
+    else:
+        ck.ok(o, "%d selection(s) by kind / name" % n_sel, instances=n_sel)
